@@ -76,7 +76,7 @@ NOTE = ("trusted: Lean kernel (+propext, Classical.choice, Quot.sound); translat
         "modelled not verified: UDP/select, OS scheduling below whole operations, time.sleep, logging")
 TECH = "Lean 4 proof over the executable world model; differential correspondence of whole histories against the real FakeTRX objects; black-box property reference as failing-input oracle"
 P = {
- "C12": dict(title="Power state, child transceivers and clock distribution", corr=["power","mixed"], orc=["power","mixed"],
+ "C12": dict(title="Power state, child transceivers and clock distribution", corr=["power","mixed","family"], orc=["power","mixed","family"],
    text="Lean theorems over Model/World: wiring invariant of every Application configuration, running flag = last effective power command (own or managing parent's) for every history of arbitrary operations, clock links = running clock owners (no duplicates), generator runs iff a link exists, indications exactly to those links at multiples of the period, POWEROFF forgets hopping and queue, port plan; the model is compared with the real objects on generated configurations and histories; an independent reference judges running flags, indications, ports on the real code"),
  "C02": dict(title="Virtual Um routing", corr=["traffic","mixed","drop","revisit"], orc=["traffic","drop","mixed","wrap","revisit"],
    text="Lean theorems: forwardMsg calls handleDataMsg exactly once for each running other transceiver whose Rx frequency in FN (fixed or hopping per TS 45.002) equals the sender's Tx frequency, for no other; datagram delivered iff recipient and not suppressed and metadata valid; nothing to sender/idle/detuned; model tied to the real BurstForwarder/FakeTRX by whole-history correspondence; oracle judges the real routing decisions (traced handle_data_msg calls) against an independent reference incl. an independent hopping implementation"),
@@ -86,7 +86,7 @@ P = {
    text="Lean theorems: after FAKE_DROP n p exactly the first n unmuted bursts with fn % p = 0 are suppressed (induction over any burst stream), mute suppresses all and leaves the counter, one NOPE (no bits, -110/0/-30) per suppressed burst on v1 and nothing on v0, bad arguments rejected without change; correspondence incl. drop counters in the final state; oracle counts suppressed bursts / NOPEs on the real code"),
  "C05": dict(title="TRXC command/response", corr=["ctrl","mixed","fuzz"], orc=["ctrl","mixed"],
    text="Lean theorems on handleRx: exactly one reply 'RSP verb status args [results]\\\\0' to the sender for every datagram starting with CMD, none otherwise, per-verb status and effect lemmas (POWERON/POWEROFF/RXTUNE/TXTUNE/SETFH/SETFORMAT/MEASURE/SETPOWER/NOMTXPOWER/RFMUTE/SETTA/FAKE_*), unknown verbs acknowledged 0, ValueError answered -1 without state change, SETFH of trxcon's maximal length not truncated; trxcon's emitter and response parser (real trx_if.c) proved/tested separately (Props/Trxcon); oracle judges every reply of the real code against the documented semantics"),
- "C03": dict(title="Transmit queue: exactly once, on time", corr=["traffic","wrap","mixed","revisit"], orc=["wrap","traffic","mixed","revisit"],
+ "C03": dict(title="Transmit queue: exactly once, on time", corr=["traffic","wrap","mixed","revisit","family"], orc=["wrap","traffic","mixed","revisit","family"],
    text='Lean theorems: every accepted burst has exactly one outcome (emitted at the tick of its own FN, reported stale, cleared by power-off) or is still queued, for every history incl. clock jumps and the hyperframe wrap (modular comparison), and in every reachable state of an interleaving semantics of socket-thread operations with the atomic actions of a tick (forward_msg split per recipient into the reads and the handle_data_msg call: every boundary the schedule harness can force is a boundary of the model); what handle_data_msg does for a recipient powered off / retuned / re-versioned between the reads and the call is stated exactly (called with the message built earlier, no queue or power state touched); correspondence of queues, stale reports and emissions on sequential histories AND of every forced schedule (one socket operation x one tick at every boundary) between the real code and Sched.exec; oracle judges routing decisions, stale counts and queue lengths on the real code, and exactly-once / on-time / nothing-vanishes / queue-empty-after-POWEROFF / no-exception under every forced schedule',
    note='trusted: Lean kernel (+propext, Classical.choice, Quot.sound); translators gen/world.py, gen/py_unicode.py, gen/trxd_consts.py, gen/hopping.py; the world harness (in-memory sockets, the real CLCKGen._worker loop in lock step in its own OS thread, deterministic randint), the schedule harness (gate on Transceiver.clck_tick, the queue lock, BurstForwarder.forward_msg, FakeTRX.handle_data_msg; inert clock thread object) and the property reference lib/worldspec.py; modelled not verified: UDP/select, OS scheduling below the atomic actions of Model/WorldSched (socket operations are whole actions), time.sleep, logging',
    technique='Lean 4 proof over the executable world model and its interleaving semantics; differential correspondence of whole histories and of forced thread schedules against the real FakeTRX objects; black-box property reference as failing-input oracle',
